@@ -150,12 +150,43 @@ def m_memset(s, av):
     s.intrinsic('llvm.memset', av); return av[0]
 
 # ---------------------------------------------------------------- std::hash
+def murmur64(data, seed):
+    """libstdc++ std::_Hash_bytes for 64-bit size_t (MurmurHash64A variant)."""
+    M = (1 << 64) - 1; mul = ((0xc6a4a793 << 32) + 0x5bd1e995) & M
+    n = len(data); h = (seed ^ (n * mul)) & M
+    al = n & ~7
+    def mix(v): return v ^ (v >> 47)
+    for i in range(0, al, 8):
+        d = int.from_bytes(bytes(data[i:i + 8]), 'little')
+        d = (mix((d * mul) & M) * mul) & M
+        h ^= d; h = (h * mul) & M
+    if n & 7:
+        d = 0
+        for k in range((n & 7) - 1, -1, -1): d = ((d << 8) + data[al + k]) & M
+        h ^= d; h = (h * mul) & M
+    h = (mix(h) * mul) & M
+    return mix(h)
+
 @model('_ZSt11_Hash_bytesPKvmm')
 def m_hash(s, av):
+    """std::hash of a byte string: concrete contents get the real libstdc++ value; symbolic contents get an uninterpreted
+    function of (length, content) that agrees with the real value on every concrete content hashed on this path
+    (equal contents => equal hashes; collisions and orderings between different contents are the solver's choice)."""
     a, n, seed = av
-    n = s.concretize(n, 'hash length'); a = s.concretize(a, 'address')
-    if n == 0: return z3.BitVec('H_empty', 64)
+    n = s.concretize(n, 'hash length'); a = s.concretize(a, 'address'); seed = s.concretize(seed, 'hash seed')
     bs = [s.load(a + i, 1) for i in range(n)]
+    if n == 0 or all(is_c(b) for b in bs):
+        h = murmur64(bs, seed)
+        if n:
+            H = z3.Function('H%d' % n, z3.BitVecSort(8 * n), z3.BitVecSort(64))
+            arg = z3.BitVecVal(int.from_bytes(bytes(bs), 'big'), 8 * n)
+            ax = H(arg) == z3.BitVecVal(h, 64)
+            known = s.extra.get('hash_axioms', ())
+            key = (n, bytes(bs))
+            if key not in known:
+                s.extra['hash_axioms'] = known + (key,)
+                if s.concrete is None: s.add(ax)
+        return h
     arg = z3.Concat(*[bv(b, 8) for b in bs]) if n > 1 else bv(bs[0], 8)
     H = z3.Function('H%d' % n, z3.BitVecSort(8 * n), z3.BitVecSort(64))
     return H(arg)
